@@ -86,7 +86,7 @@ def walk_local(fn: ast.AST):
 class _Canon(ast.NodeTransformer):
     """Syntactic canonicalisation applied to every parsed module, so that the analyses do not depend on spelling:
     `x = x <op> e` becomes `x <op>= e` (names and attribute/subscript targets alike); `pass` is dropped from blocks that
-    contain other statements.  Positions are preserved."""
+    contain other statements; a two-way `if not c: A else: B` becomes `if c: B else: A`.  Positions are preserved."""
 
     def visit_Assign(self, n: ast.Assign):
         self.generic_visit(n)
@@ -100,7 +100,19 @@ class _Canon(ast.NodeTransformer):
                 return ast.copy_location(ast.AugAssign(target=n.targets[0], op=n.value.op, value=n.value.right), n)
         return n
 
+    def visit_If(self, n: ast.If):
+        self.generic_visit(n)
+        # `if not c: A else: B` (a plain two-way branch, no elif on either side) is the same statement as `if c: B else: A`
+        if isinstance(n.test, ast.UnaryOp) and isinstance(n.test.op, ast.Not) and n.orelse \
+                and not (len(n.orelse) == 1 and isinstance(n.orelse[0], ast.If)) \
+                and not getattr(n, "_is_elif", False):
+            n.test = n.test.operand
+            n.body, n.orelse = n.orelse, n.body
+        return n
+
     def generic_visit(self, node):
+        if isinstance(node, ast.If) and len(node.orelse) == 1 and isinstance(node.orelse[0], ast.If):
+            node.orelse[0]._is_elif = True      # type: ignore[attr-defined]
         super().generic_visit(node)
         for fld in ("body", "orelse", "finalbody"):
             b = getattr(node, fld, None)
